@@ -1,19 +1,25 @@
 """Turn the output of `tools/mut.py all --tests` into mutants/RESULTS.md."""
 import json, glob, os, re, sys
 VERIF = os.path.dirname(os.path.dirname(os.path.abspath(__file__)))
-log = open(sys.argv[1]).read().splitlines()
+# several logs: a later log replaces what an earlier one says about the same change (partial re-runs after a repair)
+logs = [open(a).read().splitlines() for a in sys.argv[1:]]
 why = {}
 for f in glob.glob(os.path.join(VERIF, 'mutants', '*.json')):
     m = json.load(open(f))
     why[m['id']] = (m['property'], m['why'])
 suite, rows = {}, {}
-for l in log:
-    m = re.match(r"\s*suite on mutant (\S+): (.*)", l)
-    if m:
-        suite[m.group(1)] = 'passes' if m.group(2).startswith('PASSES') else 'KILLED by the suite'
-    m = re.match(r"(CAUGHT|MISSED|ERROR[^ ]*) mutant=(\S+) check=(\S+) violations=(\d+) ?(key=\S+)?", l)
-    if m:
-        rows.setdefault(m.group(2), []).append((m.group(3), m.group(1), (m.group(5) or '')[4:]))
+for log in logs:
+    these = {}
+    for l in log:
+        m = re.match(r"\s*suite on mutant (\S+): (.*)", l)
+        if m:
+            suite[m.group(1)] = 'passes' if m.group(2).startswith('PASSES') else 'KILLED by the suite'
+        m = re.match(r"(CAUGHT|MISSED|ERROR[^ ]*) mutant=(\S+) check=(\S+) violations=(\d+) ?(key=\S+)?", l)
+        if m:
+            these.setdefault(m.group(2), []).append((m.group(3), m.group(1), (m.group(5) or '')[4:]))
+    rows.update(these)
+rows = {k: v for k, v in rows.items() if k in why}      # (changes that were withdrawn since are not listed)
+suite = {k: v for k, v in suite.items() if k in why}
 out = ['# Deliberate property-breaking changes: results of the last full sweep', '',
        'Produced by `tools/mut.py all --tests` + `tools/mut_results.py`. "suite" = the repository\'s pinned test-suite run on the changed tree',
        '(a change the suite kills would not need this machinery). Each check ran in its quick tier.', '',
